@@ -11,11 +11,106 @@ def repo_commits():
 
 # id -> (category, technique, level text, design ref, level note)
 CHECKS = {
+ "C01": ("exploration",
+   "property-based testing: round-trip (inverse) oracle over palette-generated message sequences and generated stream partitions",
+   "Library serializer -> library deserializer (honouring every decoded Set Chunk Size) must return exactly the input sequence under a generated partition of the bytes; every accepted message must yield a non-empty packet. The generator draws fields from a per-case palette so all four header formats, extended timestamps on first and continuation chunks, zero-length messages, droppable predecessors and chunk-size changes occur in a measured fraction of cases (class table in the evidence); fixed cases cover 64 KiB and 16 MiB payloads at chunk sizes 1..2^31-1. The space is infinite: exploration with shrinking is the level this technique reaches.",
+   "DESIGN.md §4 C01",
+   "Self-consistency only (C07 judges conformance). Type id 1 enters only through set_max_chunk_size. Sequences are at most 12 (quick) / 40 (thorough) operations."),
+ "C02": ("exploration",
+   "property-based testing: validity oracle over the joint history of a real client and server session under generated schedules",
+   "A real ClientSession and ServerSession exchange their output bytes under a generated delivery schedule and fragmentation, configurations from boundary pools (chunk sizes 1..2^31-1, windows 0..2^32-1), media scripts with payloads 0..70000 bytes and arbitrary timestamps; every item must arrive exactly once, in order, byte-exact, tagged with the requested application and key, and the stop must raise the matching finished event.",
+   "DESIGN.md §4 C02",
+   "The driver queues all packets of a call before reacting to its events (documented ordering). One publish or play per connection; the application accepts everything."),
+ "C03": ("exploration",
+   "property-based testing + child-process isolation: generated raw / well-framed / adversarial-header inputs, oracle = returns, no unwinding (overflow checks on), bounded heap, watchdog",
+   "Three generators (raw and mutated bytes; well-framed messages with arbitrary bodies and argument lists interleaved with application calls; adversarial chunk headers) drive five targets (handshake, deserializer, message decoder, server and client sessions in four preparatory states). Cases run in worker processes with a counting allocator (peak heap <= 256 x bytes fed + 17 MiB, hard cap) and a watchdog, and again in-process so that a failure is shrunk. Absence of panics cannot be established by search; the generators are measured to reach every handler state.",
+   "DESIGN.md §4 C03",
+   "Built with overflow-checks and debug-assertions. AMF0 nesting depth <= 4 here (C14 owns depth). u32 acknowledgement counters need ~4 GiB per session to overflow: stated, not checked. Hang = 60 s watchdog on cases that take microseconds."),
+ "C04": ("exploration",
+   "property-based testing: round-trip oracle with structural (bitwise / unordered-map) equality",
+   "serialize either errs or its bytes decode, consuming everything, to the identical list (numbers bit-for-bit, objects as maps). Boundary lengths 65534..70000 for strings and names, NaN payloads, -0, nesting to depth 4. One known finding (empty property name) is excluded from the main campaign by construction and exercised by a dedicated sub-check that reports it as KNOWN-FINDING.",
+   "DESIGN.md §4 C04",
+   "An Err from the encoder is never a C04 violation (C12/C19 assert that representable values are not refused)."),
+ "C05": ("exploration",
+   "property-based testing + exhaustive single-cut enumeration: invariants over the exchange history of two handshakes",
+   "Client and server handshakes (or one side replaced by a digest-less original-handshake peer written in the harness) are driven against each other under generated partitions and interleavings with trailing application data; invariants: exactly 3073 bytes emitted per side starting with 3, no completion before 3073 peer bytes, trailing data handed back once and unmodified. Every single cut position 0..3113 per direction is enumerated exhaustively.",
+   "DESIGN.md §4 C05",
+   "After Completed the driver stops calling process_bytes (documented). Random fill comes from the seeded hook; the oracle holds for any fill."),
+ "C06": ("exploration",
+   "differential testing against a specification-derived reference encoder/decoder (RefChunkEnc / RefChunkDec)",
+   "A foreign sender written from RTMP 1.0 section 5.3.1 encodes generated message sequences with any csid 2..65599 (1/2/3-byte forms), any legal header format, extended timestamps, zero-length messages and in-band chunk-size changes; the reference decoder self-checks the stream, then the library must decode exactly the generated messages under a generated partition.",
+   "DESIGN.md §4 C06",
+   "RefChunkEnc/Dec are the trusted transcription of the specification; their mutual disagreement is a harness error (exit 2), never a violation. Messages one after another (interleaving is C16)."),
+ "C07": ("exploration",
+   "differential testing: library serializer output parsed by an independent strict specification decoder",
+   "The concatenated packets of generated sequences are parsed by RefChunkDec in strict mode (legal minimal csids, extended field exactly at 0xFFFFFF and never below, no format 1/2 inside a message, Set Chunk Size legal and on csid 2 / stream 0) and must yield exactly the input messages; packet boundaries must coincide with message boundaries. This is the check that sees symmetric encoder/decoder deviations the self-consistent suite cannot.",
+   "DESIGN.md §4 C07",
+   "RefChunkDec is trusted. A format-0 continuation chunk identical to its message is accepted (specification: SHOULD use format 3)."),
+ "C08": ("fault_enumeration",
+   "fault enumeration inside property-based testing: all 2^k drop subsets (k <= 10) per generated sequence, oracle = strict reference decoder + library decoder",
+   "For every generated sequence every subset of its droppable packets is removed (exhaustive for k <= 10, 256 sampled above) and the survivors must decode to exactly the surviving messages under both the strict reference decoder and the library deserializer.",
+   "DESIGN.md §4 C08",
+   "Exhaustive in the drop dimension per sequence, exploratory over sequences. Non-droppable packets are always delivered."),
+ "C09": ("exploration",
+   "stateful model-based testing: ModelServer (three-valued, from the statement) + metamorphic twin runs + bounded-exhaustive enumeration of short histories",
+   "Generated histories over 17 operation kinds (peer messages incl. malformed argument lists, application calls incl. stale/forged request ids) are executed against a real ServerSession; ModelServer predicts the prescribed observations per step and follows the implementation where the statement is silent; refused calls are re-checked by a twin run without them. All sequences of length <= 4 (quick) / <= 5 (thorough) over a 12-letter alphabet are enumerated from four starting states.",
+   "DESIGN.md §4 C09",
+   "The model is written from the statement, not the code; don't-cares are listed in DESIGN.md. An Err from handle_input ends a history (callers close the connection)."),
+ "C10": ("exploration",
+   "stateful model-based testing: ModelClient + metamorphic twin runs + bounded-exhaustive enumeration of short histories",
+   "Generated histories over 20 operation kinds (application calls and server messages with outstanding / answered / unknown transaction ids, status codes, media on active or other streams) run against a real ClientSession; ModelClient judges each clause of the statement; operations that must not change anything are removed in a twin run whose other observations must be identical. All sequences of length <= 4 / <= 5 over a 13-letter alphabet from four starting states are enumerated.",
+   "DESIGN.md §4 C10",
+   "Model from the statement; don't-cares listed in DESIGN.md. An Err from handle_input ends a history; generation is shaped so that most histories stay alive."),
+ "C11": ("exploration",
+   "exhaustive enumeration of digest offsets (728 x schemes x roles) with generated fill, oracle = independent SHA-256/HMAC implementation of the FP9 rules",
+   "The hook steers the library's random fill so every own-packet digest offset 0..727 is produced for both roles, and the harness builds peer packets with a valid digest at every offset of both schemes; RefHmac (own SHA-256/HMAC, self-tested against FIPS/RFC vectors) verifies digest and response signature; digest-less packets must be echoed exactly. Exhaustive in the offset dimension, random in the remaining bytes.",
+   "DESIGN.md §4 C11",
+   "RefHmac and the clean-room FP9 description are the trusted base. coverage.exhaustive_subchecks lists the enumerated dimensions."),
+ "C12": ("exploration",
+   "differential testing against RefAmf0 (independent AMF0 encoder + strict ordered decoder) in both directions, exhaustive marker sweep, truncation at every cut point",
+   "Encoder direction: library bytes must parse under the strict reference decoder, denote the input, and be byte-identical to the reference re-encoding of their own content. Decoder direction: reference encodings with arbitrary property order, ECMA arrays with any count field and Boolean bytes 0..255 must decode to the value they denote. All 256 markers x 4 positions are enumerated; every truncation point of small encodings must be rejected or decode to a tree-prefix.",
+   "DESIGN.md §4 C12",
+   "RefAmf0 is the trusted transcription of the AMF0 specification. Property name \"\" and marker 9 in value position are outside the judged domain."),
+ "C13": ("exploration",
+   "differential testing against RefMsg (message bodies written from the specification) + round-trip + exhaustive type-id sweep",
+   "Every message variant with boundary-pool fields converts to a payload whose type id and body equal the reference encoding (AMF0 bodies judged through RefAmf0) and back to an equal message; reference-encoded bodies incl. AMF3 aliases 15/17 decode to what they denote; all 256 type ids with arbitrary bodies pass through or are judged against the fixed layouts; chunk sizes around 2^31 are rejected in both directions.",
+   "DESIGN.md §4 C13",
+   "RefMsg trusted. Control bodies longer than their layout are not judged."),
+ "C14": ("exploration",
+   "structure-aware adversarial generation, each case decoded in an isolated worker process on a 2 MiB stack with a counting allocator and watchdog",
+   "Nests of array/object/ECMA headers to depth 100000 (len/5 at the size cap), count fields up to 2^32-1, strings announcing more than is present, floods of small values up to 1 MiB (quick) / 16 MiB (thorough), mutated valid encodings; the worker must survive and return, with peak heap <= 192 x len + 128 KiB. Process death is attributed to the announced case and confirmed in a fresh worker.",
+   "DESIGN.md §4 C14",
+   "2 MiB = Rust's default thread stack. Termination by 120 s watchdog, three orders of magnitude above the normal cost."),
+ "C15": ("exploration",
+   "metamorphic testing: the same stream under four partitions through fresh deserializers / sessions must give identical results and identical error position",
+   "Valid library streams, foreign streams, raw bytes and mutants of them are delivered in one call, byte by byte and under two generated partitions; the deserializer's message sequence, error position and variant must agree; for sessions (four preparatory states each) every call must return exactly the byte-by-byte results of its byte range and the failing call must be the one containing the byte at which byte-by-byte delivery fails.",
+   "DESIGN.md §4 C15",
+   "Error position is judged at the granularity the API has. Acknowledgements and session-generated timestamps are masked (C17/C18 own them)."),
+ "C16": ("exploration",
+   "differential testing against a per-chunk-stream reference reassembler over generated chunk interleavings; known finding classified by signature",
+   "2..4 multi-chunk messages on distinct chunk streams, reference-encoded and merged by a generated interleaving; expected deliveries come from RefChunkDec. The library reassembles into one shared buffer (known finding D11): failures whose first divergence is at/after the first overlap point are reported as KNOWN-FINDING; overlap-free orders and everything before the first overlap must still be correct and are judged as violations otherwise.",
+   "DESIGN.md §4 C16",
+   "Until the library reassembles per chunk stream, the property is only enforced outside the recorded finding; the evidence reports how many cases were set aside."),
+ "C17": ("exploration",
+   "model-based testing: ModelAck counter model driven by the layout of generated inbound streams; W = 1..64 enumerated",
+   "For both session kinds, every W in 1..=64 and a pool of larger windows, generated valid inbound streams with the window message at a generated position and re-announcements, and call sizes from {0,1,W-1,W,W+1,2W,random}: the model predicts in which calls an Acknowledgement appears and its value; conservation and 'fewer than W outstanding' are asserted after every call.",
+   "DESIGN.md §4 C17",
+   "W sampled up to 2^24 (W near 2^32 needs ~4 GiB per case). A re-announcement replaces W and does not reset the count."),
+ "C18": ("fault_enumeration",
+   "fault enumeration (all 2^k drop subsets, k <= 8) over session histories with a scripted session clock; oracle = strict reference decoder + RefMsg",
+   "Histories from the C09/C10 generators plus media-heavy variants are run with the session clock shifted across 2^24 and 2^32 ms by the hook; every packet returned by every call is recorded; the packets minus every drop subset must form a well-formed chunk stream of well-formed messages on the expected message streams with control messages on stream 0 / chunk stream 2, and the droppable mark only where asked.",
+   "DESIGN.md §4 C18",
+   "Uptime is simulated by moving start_time into the past; the ms computation and u32 truncation are the library's own. An Err from handle_input ends a history."),
+ "C19": ("exploration",
+   "boundary-value generation, each case in an isolated worker with allocation cap and watchdog; oracle = refused with Err, or accepted and working (C01 / C02 oracles)",
+   "Chunk sizes, windows, bandwidths, version / tcUrl / app strings, payload lengths and AMF0 string lengths around every protocol limit through serializer, deserializer, both session configurations and the AMF0 encoder. Out-of-protocol values must produce an Err from some call and leave the object working; accepted values must yield a working round-trip or client/server mini session. A non-terminating call hits the allocation cap or the watchdog in the worker.",
+   "DESIGN.md §4 C19",
+   "Termination observed by allocation cap (3 GiB) and a 120 s watchdog; the slowest accepted case takes under 2 s."),
  "C20": ("exploration",
-         "property-based testing: algebraic laws over generated (a,d) pairs + exhaustive boundary grid",
-         "All arithmetic/ordering laws of the statement are evaluated against u64 arithmetic computed by the harness on an exhaustive 61x61 boundary grid and on hundreds of thousands of generated pairs biased to the wrap and to d near 2^31; u32 x u32 cannot be enumerated, so this is exploration, which suits a pure function with a handful of branch points.",
-         "DESIGN.md §4 C20",
-         "Trusts u64 arithmetic of the harness. The antipode d = 2^31 is judged for antisymmetry only."),
+   "property-based testing: algebraic laws over generated (a,d) pairs + exhaustive boundary grid",
+   "All arithmetic / ordering laws of the statement are evaluated against u64 arithmetic computed by the harness on an exhaustive 61x61 boundary grid and on generated pairs biased to the wrap and to d near 2^31, through every operator surface (Ord, PartialOrd, PartialOrd<u32> both ways, ==, max/min). u32 x u32 cannot be enumerated, so this is exploration, which suits a pure function with a handful of branch points.",
+   "DESIGN.md §4 C20",
+   "Trusts the harness's u64 arithmetic. At the antipode d = 2^31 only antisymmetry and != Equal are asserted."),
 }
 
 NOT_YET = {}
